@@ -199,14 +199,17 @@ def check_history(xs: List[int], ops: List[int], k: int) -> bool:
     valid = False        # model: a complete cache is stored
     with world([cache_mod]) as fs:
         for op in ops:
-            o = 0 if op <= 0 else (1 if op == 1 else (2 if op == 2 else 3))
+            o = 0 if op <= 0 else (1 if op == 1 else (2 if op == 2 else (3 if op == 3 else 4)))
             up = Up()
             if o == 0 or o == 2:
                 c = new_cache(fs, recompute=(o == 2))
                 got = list(Sequence(up, c, Down()).run(iter(mkflow(xs, False))))
                 if got != flow:
                     return h.ok(False)
-                if valid and o == 0:
+                if valid is None and o == 0:
+                    if up.pulls not in (0, n):
+                        return h.ok(False)
+                elif valid and o == 0:
                     if up.pulls != 0:
                         return h.ok(False)
                 else:
@@ -221,8 +224,18 @@ def check_history(xs: List[int], ops: List[int], k: int) -> bool:
                 if valid:
                     if up.pulls != 0:
                         return h.ok(False)
-                else:
+                elif valid is not None:
                     valid = False
+            elif o == 4:
+                # a recomputing run that is interrupted: whatever it leaves
+                # behind, no later run may serve a truncated flow (checked by
+                # the following operations); a complete cache stored earlier
+                # may survive or not
+                c = new_cache(fs, recompute=True)
+                got = take(Sequence(up, c, Down()).run(iter(mkflow(xs, False))), k)
+                if got != flow[:k]:
+                    return h.ok(False)
+                valid = None            # unknown: a later run either replays or recomputes
             else:
                 c = new_cache(fs)
                 if c.cache_exists():
@@ -274,7 +287,7 @@ CONDITIONS = [
          smoke=["check_interrupted([1, 2, 3], False, 3, 0, 0)",
                 "check_interrupted([1, 2, 3], False, 3, 2, 1)"]),
     dict(fn="check_history", shards=(15, 24), budget=(70, 1200),
-         smoke=["check_history([1, 2], [0, 0, 3], 1)", "check_history([1, 2], [0, 2, 1], 1)"]),
+         smoke=["check_history([1, 2], [0, 0, 3], 1)", "check_history([1, 2], [0, 2, 1], 1)", "check_history([1, 2], [0, 4, 0], 1)"]),
     dict(fn="check_two_caches", budget=(60, 600),
          smoke=["check_two_caches([1, 2], 3, 1)", "check_two_caches([1, 2], 1, 0)",
                 "check_two_caches([1, 2], 0, 2)"]),
